@@ -51,6 +51,7 @@ const SET_BLOCKED_TX: Token = Token(u16::max_value() as usize + 4);
 
 enum IoLoopMessage {
     Send(OutputBuffer),
+    ChannelClose(OutputBuffer),
     ConnectionClose(OutputBuffer),
     SetReturnHandler(Option<CrossbeamSender<Return>>),
     SetPubConfirmHandler(Option<CrossbeamSender<Confirm>>),
@@ -69,6 +70,11 @@ struct ChannelSlot {
     consumers: HashMap<String, CrossbeamSender<ConsumerMessage>>,
     return_handler: Option<CrossbeamSender<Return>>,
     pub_confirm_handler: Option<CrossbeamSender<Confirm>>,
+
+    // Set once the client has sent Channel.Close for this channel. A Channel.CloseOk
+    // from the server is only meant for a slot that has asked for it; see the CloseOk
+    // arm of ConnectionState::process.
+    close_requested: bool,
 }
 
 impl ChannelSlot {
@@ -97,6 +103,7 @@ impl ChannelSlot {
             consumers: HashMap::new(),
             return_handler: None,
             pub_confirm_handler: None,
+            close_requested: false,
         };
 
         let loop_handle = IoLoopHandle::new(channel_id, mio_tx, rx);
@@ -839,6 +846,12 @@ impl Inner {
             }
             IoLoopMessage::Send(buf) => {
                 self.outbuf.append(buf);
+            }
+            IoLoopMessage::ChannelClose(buf) => {
+                self.outbuf.append(buf);
+                if let Some(slot) = self.chan_slots.get_mut(channel_id) {
+                    slot.close_requested = true;
+                }
             }
             IoLoopMessage::SetReturnHandler(handler) => {
                 assert!(channel_id != 0, "channel 0 cannot have a return handler");
